@@ -70,15 +70,15 @@ func c09Gen(tier string, seed int64) []core.Case {
 }
 
 type histOp struct {
-	client   int
-	kind     string // start | update | waiting
-	key      string // update: "Type<Sender"
-	flagOK   bool
-	call     int64
-	ret      int64
-	okRet    bool
-	errText  string
-	waiting  []string
+	client  int
+	kind    string // start | update | waiting
+	key     string // update: "Type<Sender"
+	flagOK  bool
+	call    int64
+	ret     int64
+	okRet   bool
+	errText string
+	waiting []string
 }
 
 type c09State struct {
